@@ -172,4 +172,82 @@ def ListOfDicts_read_csv_signature : List String := ["cls", "path", "*", "encodi
 /-- the calls of dataiter/list_of_dicts.py: ListOfDicts.read_csv in the order Python makes them along the source text -/
 def ListOfDicts_read_csv_call_order : List String := ["util.xopen", "csv.reader", "list", "cls", "rows.pop", "len", "util.generate_colnames", "len", "range", "reversed", "zip", "dict", "cls", "types.items", "type"]
 
+/-- dataiter/io.py: read_csv (sha256 of the function source: 464625d47d0c05e5) -/
+def io_read_csv (truth : Term → Bool) : Out :=
+  Out.ret [] (Term.app "DataFrame.read_csv" [(Term.sym "path"), (Term.app "=encoding" [(Term.sym "encoding")]), (Term.app "=sep" [(Term.sym "sep")]), (Term.app "=header" [(Term.sym "header")]), (Term.app "=columns" [(Term.sym "columns")]), (Term.app "=dtypes" [(Term.sym "dtypes")])])
+
+/-- the decorators of dataiter/io.py: read_csv, outermost first -/
+def io_read_csv_decorators : List String := []
+
+/-- the signature of dataiter/io.py: read_csv: parameters in order, with the source text of their defaults -/
+def io_read_csv_signature : List String := ["path", "*", "encoding='utf-8'", "sep=','", "header=True", "columns=[]", "dtypes={}"]
+
+/-- the calls of dataiter/io.py: read_csv in the order Python makes them along the source text -/
+def io_read_csv_call_order : List String := ["DataFrame.read_csv"]
+
+/-- dataiter/io.py: read_geojson (sha256 of the function source: b04480963b01cd1a) -/
+def io_read_geojson (truth : Term → Bool) : Out :=
+  Out.ret [] (Term.app "GeoJSON.read" [(Term.sym "path"), (Term.app "=encoding" [(Term.sym "encoding")]), (Term.app "=columns" [(Term.sym "columns")]), (Term.app "=dtypes" [(Term.sym "dtypes")]), (Term.app "=**" [(Term.sym "kwargs")])])
+
+/-- the decorators of dataiter/io.py: read_geojson, outermost first -/
+def io_read_geojson_decorators : List String := []
+
+/-- the signature of dataiter/io.py: read_geojson: parameters in order, with the source text of their defaults -/
+def io_read_geojson_signature : List String := ["path", "*", "encoding='utf-8'", "columns=[]", "dtypes={}", "**kwargs"]
+
+/-- the calls of dataiter/io.py: read_geojson in the order Python makes them along the source text -/
+def io_read_geojson_call_order : List String := ["GeoJSON.read"]
+
+/-- dataiter/io.py: read_json (sha256 of the function source: ed644ef9d8ac0c55) -/
+def io_read_json (truth : Term → Bool) : Out :=
+  Out.ret [] (Term.app "ListOfDicts.read_json" [(Term.sym "path"), (Term.app "=encoding" [(Term.sym "encoding")]), (Term.app "=keys" [(Term.sym "keys")]), (Term.app "=types" [(Term.sym "types")]), (Term.app "=**" [(Term.sym "kwargs")])])
+
+/-- the decorators of dataiter/io.py: read_json, outermost first -/
+def io_read_json_decorators : List String := []
+
+/-- the signature of dataiter/io.py: read_json: parameters in order, with the source text of their defaults -/
+def io_read_json_signature : List String := ["path", "*", "encoding='utf-8'", "keys=[]", "types={}", "**kwargs"]
+
+/-- the calls of dataiter/io.py: read_json in the order Python makes them along the source text -/
+def io_read_json_call_order : List String := ["ListOfDicts.read_json"]
+
+/-- dataiter/io.py: read_npz (sha256 of the function source: 7d2137080161fe7e) -/
+def io_read_npz (truth : Term → Bool) : Out :=
+  Out.ret [] (Term.app "DataFrame.read_npz" [(Term.sym "path"), (Term.app "=allow_pickle" [(Term.sym "allow_pickle")])])
+
+/-- the decorators of dataiter/io.py: read_npz, outermost first -/
+def io_read_npz_decorators : List String := []
+
+/-- the signature of dataiter/io.py: read_npz: parameters in order, with the source text of their defaults -/
+def io_read_npz_signature : List String := ["path", "*", "allow_pickle=True"]
+
+/-- the calls of dataiter/io.py: read_npz in the order Python makes them along the source text -/
+def io_read_npz_call_order : List String := ["DataFrame.read_npz"]
+
+/-- dataiter/io.py: read_parquet (sha256 of the function source: 466f895773972ff4) -/
+def io_read_parquet (truth : Term → Bool) : Out :=
+  Out.ret [] (Term.app "DataFrame.read_parquet" [(Term.sym "path"), (Term.app "=columns" [(Term.sym "columns")]), (Term.app "=dtypes" [(Term.sym "dtypes")])])
+
+/-- the decorators of dataiter/io.py: read_parquet, outermost first -/
+def io_read_parquet_decorators : List String := []
+
+/-- the signature of dataiter/io.py: read_parquet: parameters in order, with the source text of their defaults -/
+def io_read_parquet_signature : List String := ["path", "*", "columns=[]", "dtypes={}"]
+
+/-- the calls of dataiter/io.py: read_parquet in the order Python makes them along the source text -/
+def io_read_parquet_call_order : List String := ["DataFrame.read_parquet"]
+
+/-- dataiter/util.py: format_alias_doc (sha256 of the function source: 3b0f4ec442860cfa) -/
+def util_format_alias_doc (truth : Term → Bool) : Out :=
+  Out.ret [] (Term.app "Add" [(Term.app "fstring" [(Term.app "format" [(Term.app ".__doc__" [(Term.sym "target")]), (Term.sym ""), (Term.int (-1 : Int))]), (Term.sym "'\\n\\n'"), (Term.app "format" [(Term.app "Mult" [(Term.sym "' '"), (Term.int (8 : Int))]), (Term.sym ""), (Term.int (-1 : Int))])]), (Term.app ".format" [(Term.sym "'.. note:: :func:`{}` is a convenience alias for :meth:`{}`.'"), (Term.app ".__name__" [(Term.sym "alias")]), (Term.app ".__qualname__" [(Term.sym "target")])])])
+
+/-- the decorators of dataiter/util.py: format_alias_doc, outermost first -/
+def util_format_alias_doc_decorators : List String := []
+
+/-- the signature of dataiter/util.py: format_alias_doc: parameters in order, with the source text of their defaults -/
+def util_format_alias_doc_signature : List String := ["alias", "target"]
+
+/-- the calls of dataiter/util.py: format_alias_doc in the order Python makes them along the source text -/
+def util_format_alias_doc_call_order : List String := ["'.. note:: :func:`{}` is a convenience alias for :meth:`{}`.'.format"]
+
 end DI.Gen
